@@ -384,6 +384,10 @@ fn sym_c13(i: usize, occ: usize) -> BOp {
         5 => BOp::Ack,
         6 => BOp::Footer(format!("footer-{}", occ)),
         7 => BOp::Assertion(format!("assertion-{}", occ)),
+        // custom claims whose names equal a time claim up to case: they are ordinary custom claims
+        8 => BOp::Set(Claim::Custom("Exp".into(), json!(format!("custom-Exp-{}", occ)))),
+        9 => BOp::Set(Claim::Custom("IAT".into(), json!(occ))),
+        10 => BOp::Set(Claim::Custom("Nbf".into(), json!(format!("custom-Nbf-{}", occ)))),
         _ => BOp::Build,
     }
 }
@@ -401,6 +405,10 @@ fn sym_c17(i: usize, occ: usize) -> BOp {
         8 => BOp::Set(Claim::Custom("b".into(), json!(format!("b{}", occ)))),
         9 => BOp::Ack,
         10 => BOp::Footer(format!("footer-{}", occ)),
+        // names with upper-case letters are claim names like any other; "Role" and "role" are two different claims
+        11 => BOp::Set(Claim::Custom("userId".into(), json!(occ))),
+        12 => BOp::Set(Claim::Custom("Role".into(), json!(format!("R{}", occ)))),
+        13 => BOp::Set(Claim::Custom("role".into(), json!(format!("r{}", occ)))),
         _ => BOp::Build,
     }
 }
@@ -415,7 +423,7 @@ fn word(prop: &str, k: usize, len: usize, mut idx: usize) -> Vec<BOp> {
     syms_to_ops(prop, &syms)
 }
 fn syms_to_ops(prop: &str, syms: &[usize]) -> Vec<BOp> {
-    let mut occ = [0usize; 16];
+    let mut occ = [0usize; 24];
     let mut ops: Vec<BOp> = syms
         .iter()
         .map(|&s| {
@@ -465,7 +473,7 @@ pub fn run(prop: &str, tier: &str, seed: u64) -> Report {
         total.inconclusive.push("harness RFC 3339 parser self-test failed".into());
         return total;
     }
-    let (k, maxlen) = if prop == "C13" { (9usize, if thorough { 7 } else { 4 }) } else { (12usize, if thorough { 6 } else { 4 }) };
+    let (k, maxlen) = if prop == "C13" { (12usize, if thorough { 6 } else { 4 }) } else { (15usize, if thorough { 5 } else { 4 }) };
     // exhaustive words on v4.local
     let mut counts = Vec::new();
     let mut totalw = 0usize;
@@ -542,5 +550,5 @@ pub fn replay(prop: &str, case: &Value) -> Report {
     r
 }
 
-pub const RULE_C13: &str = "call words over {set exp, set nbf, set iat, set iss, set custom a, acknowledge, set_footer, set_implicit_assertion, build} (a final build is appended to words that do not end in one): ALL words up to length 4 (thorough 7) on v4.local, seeded random words up to length 12 on all 8 protocols. Every token of every successful build (first and later builds of one builder) is read back and compared with a state machine written from the property: exp present iff not acknowledged; default exp == creation + 3600.000000000 s, default iat == default nbf within the clock bracket taken around the run (5 ms slack); caller-supplied exp/iat/nbf values present. distinct_nontrivial = distinct (protocol, word, build number) that built and conformed";
-pub const RULE_C17: &str = "call words over {set_claim(k) for k in exp,nbf,iat,iss,sub,aud,jti,a,b; acknowledge; set_footer; build} (a final build appended): ALL words up to length 4 (thorough 6) on v4.local, seeded random words up to length 40 on all 8 protocols; every occurrence of a setter uses a different value. Model: once any key has been supplied twice every build must fail with the duplicate-claim error naming one of the duplicated keys; otherwise every build must succeed and carry the caller's values; exp supplied after the acknowledgement may be refused as duplicate or ignored. distinct_nontrivial = distinct (protocol, word, build number, outcome class)";
+pub const RULE_C13: &str = "call words over {set exp, set nbf, set iat, set iss, set custom a, set custom 'Exp' / 'IAT' / 'Nbf' (custom claims that equal a time claim up to case), acknowledge, set_footer, set_implicit_assertion, build} (a final build is appended to words that do not end in one): ALL words up to length 4 (thorough 6) on v4.local, seeded random words up to length 12 on all 8 protocols. Every token of every successful build (first and later builds of one builder) is read back and compared with a state machine written from the property: exp present iff not acknowledged; default exp == creation + 3600.000000000 s, default iat == default nbf within the clock bracket taken around the run (5 ms slack); caller-supplied exp/iat/nbf values present. distinct_nontrivial = distinct (protocol, word, build number) that built and conformed";
+pub const RULE_C17: &str = "call words over {set_claim(k) for k in exp,nbf,iat,iss,sub,aud,jti,a,b,userId,Role,role; acknowledge; set_footer; build} (a final build appended): ALL words up to length 4 (thorough 5) on v4.local, seeded random words up to length 40 on all 8 protocols; every occurrence of a setter uses a different value. Model: once any key has been supplied twice every build must fail with the duplicate-claim error naming one of the duplicated keys; otherwise every build must succeed and carry the caller's values; exp supplied after the acknowledgement may be refused as duplicate or ignored. distinct_nontrivial = distinct (protocol, word, build number, outcome class)";
